@@ -553,3 +553,80 @@ def check_c02(ctx):
 
 
 CHECKS["C02"] = check_c02
+
+
+ALL_MAPS = [("Map", "", ""), ("MapOf", "string", "any"), ("MapOf", "int", "int"), ("MapOf", "struct", "string")]
+ALL_CACHES = [("Cache", "", ""), ("CacheOf", "string", "any")]
+
+
+def check_c05(ctx):
+    ks = (2, 3) if not ctx.thorough else (2, 3, 4, 8)
+    scs = map_scenarios(ctx, ALL_MAPS[:2] if not ctx.thorough else ALL_MAPS, pick=("F10", "F11", "F9"))
+    for (kind, kt, vt) in ALL_MAPS[:2]:
+        for strat in scen.strategies(ctx.tier, lib.seed()):
+            for k in ks:
+                scs += scen.racer_families(kind, kt, vt, strat, k)
+    run_conc(ctx, scs, "Trace_MapLin", "C05", "map racers")
+    scs = cache_scenarios(ctx, ALL_CACHES, pick=("G4", "G3b", "G1b", "G2c"))
+    for (kind, kt, vt) in ALL_CACHES:
+        for strat in scen.strategies(ctx.tier, lib.seed()):
+            for k in ks:
+                scs += scen.racer_families(kind, kt, vt, strat, k)
+    run_conc(ctx, scs, "Trace_CacheLin", "C05", "cache racers")
+    check_seq_cache_light(ctx, "C05")
+
+
+def check_seq_cache_light(ctx, prop):
+    """The sequential half of a property: exhaustive cache model + random traces on two containers."""
+    exhaustive_cache_model(ctx)
+    n, length = (40, 120) if not ctx.thorough else (600, 300)
+    base = cache_programs(ctx, n, length, units=(1, 1, 1_000_000_000))
+    for (kind, kt, vt) in CONTAINERS_CACHE[:2]:
+        run_seq(ctx, [instantiate(p, kind, kt, vt) for p in base], "Trace_CacheSeq", prop, "%s[%s,%s] random (sequential)" % (kind, kt, vt))
+
+
+def check_c06(ctx):
+    run_conc(ctx, cache_scenarios(ctx, ALL_CACHES, pick=("G1", "G2", "G5", "G6", "G7", "G8", "G9b-visitor-del")), "Trace_CacheLin", "C06", "cache removers")
+    check_seq_cache_light(ctx, "C06")
+
+
+def check_c07(ctx):
+    run_conc(ctx, map_scenarios(ctx, ALL_MAPS if ctx.thorough else ALL_MAPS[:3], pick=("F12", "F13", "F14", "F15", "F6", "F4")), "Trace_MapLin", "C07", "map traversals")
+    run_conc(ctx, cache_scenarios(ctx, ALL_CACHES, pick=("G9", "G8", "G1-")), "Trace_CacheLin", "C07", "cache traversals")
+    check_seq_cache_light(ctx, "C07")
+    rng = random.Random(lib.seed() * 13 + 7)
+    progs = [gen.map_program(rng, "Map", "", "", length=60, nkeys=rng.choice([3, 8, 30]), note="seq-range#%d" % i,
+                             weights=gen.MAP_WEIGHTS + [("Range", 8)]) for i in range(20 if not ctx.thorough else 300)]
+    for (kind, kt, vt) in CONTAINERS_MAP[:2]:
+        run_seq(ctx, [instantiate(p, kind, kt, vt) for p in progs], "Trace_MapSeq", "C07", "%s sequential Range" % kind)
+
+
+def check_c08(ctx):
+    run_conc(ctx, map_scenarios(ctx, ALL_MAPS if ctx.thorough else ALL_MAPS[:2]), "Trace_MapLin", "C08", "map families (quiescent Size)")
+    run_conc(ctx, cache_scenarios(ctx, ALL_CACHES), "Trace_CacheLin", "C08", "cache families (quiescent Count)")
+    check_seq_cache_light(ctx, "C08")
+
+
+def check_c13(ctx):
+    scs = map_scenarios(ctx, ALL_MAPS if ctx.thorough else ALL_MAPS[:2])
+    for (kind, kt, vt) in (ALL_MAPS if ctx.thorough else ALL_MAPS[:2]):
+        for strat in scen.strategies(ctx.tier, lib.seed()):
+            scs += scen.termination_families(kind, kt, vt, strat)
+    run_conc(ctx, scs, "Trace_MapLin", "C13", "map families (termination)", c13=True)
+    run_conc(ctx, cache_scenarios(ctx, ALL_CACHES), "Trace_CacheLin", "C13", "cache families (termination, re-entrant callbacks)", c13=True)
+    ctx.assumptions += ["verdict = scheduler-observed deadlock (some thread unfinished, none enabled) or fair step budget exhausted; fair-yield rule: a thread that called Gosched is deprioritised until another thread performs a store-type operation"]
+
+
+def check_c16(ctx):
+    scs = []
+    for (kind, kt, vt) in (ALL_MAPS if ctx.thorough else ALL_MAPS[:2]):
+        scs += scen.solo_families(kind, kt, vt)
+    run_conc(ctx, scs, "Trace_MapLin", "C16", "map solo readers", c13=True)
+    scs = []
+    for (kind, kt, vt) in ALL_CACHES:
+        scs += scen.solo_families(kind, kt, vt)
+    run_conc(ctx, scs, "Trace_CacheLin", "C16", "cache solo readers", c13=True)
+    ctx.assumptions += ["a writer is parked before each of its synchronisation operations (every sync/atomic call, Mutex/Cond operation, Gosched, user function); the reader must finish within 200 own steps"]
+
+
+CHECKS.update({"C05": check_c05, "C06": check_c06, "C07": check_c07, "C08": check_c08, "C13": check_c13, "C16": check_c16})
